@@ -233,78 +233,89 @@ def _ctx_rules(ck: Check, prog: Program, b: FuncInfo) -> None:
         for pn, pc in bad_sig:
             ck.finding('SIG-SAME', b.qualname, 'validated and invoked callables differ', b.module.rel, pc.lineno,
                        f'validate_method is given `{m_arg}` but `{dotted(pc.args[0]) if pc.args else None}` is what gets called')
-        # CTX-WINS: on every path on which a context is configured, the server context is injected after validation and before
-        # the call is prepared: by name into the validated mapping, or as the first positional argument
+        # CTX-WINS: the server context is injected after validation, into the validated mapping by name or as the first positional
+        # argument, exactly when a context is configured: positional iff self.positional.  Decided on injection EVENTS and the
+        # conditions (guards) under which each happens, whatever statement or expression form carries them.
+        from ..flow import Flow, expand_flag_guards
+        from ..util import canon_dotted
+        fl = Flow(cfg)
         val_var = list(assigned_names(vn))[0] if assigned_names(vn) else None
-        inj = []
+
+        def gstate(guards):
+            """(configured?, positional?, other guards) established by a guard list."""
+            conf = pos = None
+            extra = []
+            for c, pol in expand_flag_guards(b, guards):
+                k = classify_cond(prog, b, c)
+                if k.subject == 'self.context' and k.kind in ('truthy', 'is-none'):
+                    v = ((not k.negated) == pol) if k.kind == 'truthy' else (k.negated == pol)
+                    conf = v if conf is None else (conf and v)
+                elif k.subject == 'self.positional' and k.kind == 'truthy':
+                    pos = (not k.negated) == pol
+                else:
+                    extra.append(('' if pol else 'not ') + norm(c))
+            return conf, pos, extra
+        events = []       # (kind, node, guards, detail)
         for n in cfg.stmt_nodes():
             a = n.ast
-            if isinstance(a, ast.Assign) and isinstance(a.targets[0], ast.Subscript) and dotted(a.targets[0].slice) == 'self.context' \
-                    and dotted(a.value) == ctx_param:
-                inj.append(('by-name', n, dotted(a.targets[0].value)))
+            g_n = [(g.src.ast, g.label == 'T') for g in guard_edges(cfg, n)]
+            if n.kind == 'stmt' and isinstance(a, ast.Assign) and isinstance(a.targets[0], ast.Subscript) and \
+                    canon_dotted(b, a.targets[0].slice) == 'self.context' and dotted(a.value) == ctx_param:
+                events.append(('by-name', n, g_n, dotted(a.targets[0].value)))
             for c in calls_in(n):
                 if isinstance(c.func, ast.Attribute) and c.func.attr in ('append', 'insert') and c.args and dotted(c.args[-1]) == ctx_param:
-                    inj.append(('positional', n, dotted(c.func.value)))
+                    events.append(('positional', n, g_n, dotted(c.func.value)))
+        first_pos_ok = True
         for pn, pc in partials:
-            for i, a in enumerate(pc.args):
-                if dotted(a) == ctx_param:
-                    inj.append(('positional', pn, f'<arg {i}>'))
-        kinds = {k for k, _, _ in inj}
+            g_p = [(g.src.ast, g.label == 'T') for g in guard_edges(cfg, pn)]
+            for i, a_ in enumerate(pc.args):
+                if dotted(a_) == ctx_param:
+                    events.append(('positional', pn, g_p, f'<arg {i}>'))
+                    if i != 1:
+                        first_pos_ok = False
+                elif isinstance(a_, ast.Starred):
+                    for al in fl.alts(pn, a_.value):
+                        v = al.expr
+                        if isinstance(v, (ast.Tuple, ast.List)) and any(dotted(x) == ctx_param for x in v.elts):
+                            events.append(('positional', pn, al.guards, norm(v)))
+                            if i != 1 or dotted(v.elts[0]) != ctx_param:
+                                first_pos_ok = False
+                    if i != 1 and any(k == 'positional' and d == dotted(a_.value) for k, _, _, d in events):
+                        first_pos_ok = False
+        kinds = {k for k, _, _, _ in events}
         ok = kinds == {'by-name', 'positional'}
-        order_ok = all(n.id in cfg.reachable(vn) for _, n, _ in inj) and \
-            all(any(pn.id in cfg.reachable(n) or pn is n for pn, _ in partials) for _, n, _ in inj)
-        target_ok = all((v == val_var) for k, _, v in inj if k == 'by-name')
-        # path rule
-        ctx_edges = []
-        for c in cfg.nodes:
-            if c.kind != 'cond':
-                continue
-            ckd = classify_cond(prog, b, c.ast)
-            if ckd.subject == 'self.context' and ckd.kind in ('truthy', 'is-none'):
-                for e in cfg.succ[c.id]:
-                    if e.label in ('T', 'F'):
-                        configured = ((e.label == 'T') != ckd.negated) if ckd.kind == 'truthy' else ((e.label == 'T') == ckd.negated)
-                        if configured:
-                            ctx_edges.append(e)
-        uninjected = []
-        for pn, pc in partials:
-            kw_vars = {dotted(k.value) for k in pc.keywords if k.arg is None}
-            star_vars = {dotted(a.value) for a in pc.args if isinstance(a, ast.Starred)}
-            sat = [n for k, n, v in inj if (k == 'by-name' and v in kw_vars) or (k == 'positional' and (v in star_vars or n is pn))]
-            if pn in sat:
-                continue
-            for e in ctx_edges:
-                if e.dst is pn or pn.id in cfg.reachable(e.dst, avoid_nodes=sat):
-                    if e.dst in sat:
-                        continue
-                    uninjected.append((pn, pc, e))
-                    break
-        path_ok = bool(ctx_edges) and not uninjected
+        order_ok = all(n.id in cfg.reachable(vn) or any(n is pn for pn, _ in partials) for _, n, _, _ in events) and \
+            all(any(pn.id in cfg.reachable(n) or pn is n for pn, _ in partials) for _, n, _, _ in events)
+        target_ok = all((d == val_var) for k, _, _, d in events if k == 'by-name')
+        cond_problems = []
+        for k, n, gs, d in events:
+            conf, pos, extra = gstate(gs)
+            want_pos = (k == 'positional')
+            if conf is not True:
+                cond_problems.append((n, f'the {k} injection is not conditional on a configured context (self.context)'))
+            elif pos is not want_pos:
+                cond_problems.append((n, f'the {k} injection happens when self.positional is {pos}'))
+            elif extra:
+                cond_problems.append((n, f'the {k} injection additionally depends on {extra}: with a configured context the server context '
+                                         f'must always be injected'))
+        # every prepared call splats the validated mapping
+        kw_ok = all(any(k_.arg is None and dotted(k_.value) == val_var for k_ in pc.keywords) for _, pc in partials)
         ck.ob('CTX-WINS', f'{short(b.qualname)}: the server context is injected after the client mapping is built (by name or first positional)',
-              ok and order_ok and target_ok and path_ok, sample={'injections': sorted(kinds), 'prepared_calls': len(partials)})
+              ok and order_ok and target_ok and not cond_problems and first_pos_ok and kw_ok,
+              sample={'injections': sorted(kinds), 'prepared_calls': len(partials)})
         if not ok:
             ck.finding('CTX-WINS', b.qualname, f'context injection modes {sorted(kinds)}', b.module.rel, b.node.lineno,
                        'Method.bind must inject the server context by name (kwargs[self.context] = context) or as first positional argument')
-        elif not order_ok or not target_ok:
-            ck.finding('CTX-WINS', b.qualname, 'context injected before the client arguments are merged', b.module.rel, inj[0][1].line,
+        elif not order_ok or not target_ok or not kw_ok:
+            ck.finding('CTX-WINS', b.qualname, 'context injected before the client arguments are merged', b.module.rel, events[0][1].line,
                        'the server context must be written after (over) the client-derived mapping, otherwise a client-supplied value wins')
-        elif not ctx_edges:
-            ck.finding('CTX-WINS', b.qualname, 'injection not conditional on a configured context', b.module.rel, b.node.lineno,
-                       'no branch tests whether a context parameter is configured (self.context)')
         else:
-            for pn, pc, e in uninjected:
-                ck.finding('CTX-WINS', b.qualname, 'prepared call without the context on a path with a configured context', b.module.rel, pc.lineno,
-                           f'`{norm(pc)[:80]}` is reachable from `{norm(e.src.ast)}`:{e.label} (context configured) without the context being injected')
-        # the positional context is the first positional argument
-        for pn, pc in partials:
-            pos_here = [i for i, a in enumerate(pc.args) if dotted(a) == ctx_param or
-                        (isinstance(a, ast.Starred) and any(k == 'positional' and v == dotted(a.value) for k, _, v in inj))]
-            if pos_here and pos_here[0] != 1:
-                ck.finding('CTX-WINS', b.qualname, 'positional context not first', b.module.rel, pc.lineno,
-                           f'`{norm(pc)}`: the positional context must be the first positional argument of the call')
-        if not any(any(dotted(a) == ctx_param or isinstance(a, ast.Starred) for a in pc.args[1:]) for _, pc in partials):
-            ck.finding('CTX-WINS', b.qualname, 'positional context not first', b.module.rel, partials[0][1].lineno,
-                       'no prepared call takes the positional context as its first positional argument')
+            for n, why in cond_problems:
+                ck.finding('CTX-WINS', b.qualname, why[:70], b.module.rel, n.line,
+                           f'{why}; required: by name iff a context is configured and not positional, as first positional argument iff configured and positional')
+            if not first_pos_ok:
+                ck.finding('CTX-WINS', b.qualname, 'positional context not first', b.module.rel, partials[0][1].lineno,
+                           'the positional context must be the first positional argument of the prepared call')
     else:
         # ViewMethod: context goes to the view constructor; the bound method of that instance is validated and called
         ctor = [c for n in cfg.stmt_nodes() for c in calls_in(n) if dotted(c.func) == 'self.view_cls']
